@@ -12,7 +12,9 @@ import os
 import posixpath
 import re
 import shutil
+import subprocess
 import tempfile
+import time
 
 import lib
 import seqtie
@@ -23,7 +25,11 @@ PATH_HARNESS = "harness/path/path_harness.cpp"
 FILE_SRCS = ["src/File.cpp", "src/Path.cpp", "src/Exception.cpp"]
 PATH_SRCS = ["src/Path.cpp", "src/DirectoryVisitor.cpp", "src/Exception.cpp"]
 TMP_PARENT = "/var/tmp"
-HARNESS_TIMEOUT = 900      # File::read() on an AppendText stream never returns; nothing generates it, the timeout is the net
+HARNESS_TIMEOUT = 900      # Lean driver
+# File::read() on a stream that cannot be read (AppendText; a directory) never returns.  Nothing generates that on the
+# unchanged code; a harness stream that does not finish in time is killed and the hanging case is located.
+STREAM_TIMEOUT = [75]
+SHRINK_TIMEOUT = 15
 
 PROPS = {
     "C17": {
@@ -298,8 +304,8 @@ def gen_fs_case(rng, tier, big):
     case = ["ps root @"]
     dirs = [[]]
     files = []
-    depth_max = 1 + rng.below(5)
-    budget = 4 + rng.below(40 if tier == "quick" else 120)
+    depth_max = 1 + rng.below(5)                                    # depth <= 5
+    budget = 6 + rng.below(60 if tier == "quick" else 160)
 
     def rel(segs):
         return hx(b"/".join(segs))
@@ -311,7 +317,7 @@ def gen_fs_case(rng, tier, big):
     frontier = [[]]
     while frontier and budget > 0:
         d = frontier.pop(rng.below(len(frontier)))
-        fan = rng.below(6)
+        fan = 1 + rng.below(5) if not d else rng.below(6)            # fan-out <= 5; below the root 0 = empty directory
         names = []
         while len(names) < fan:
             n = rng.pick(NAME_POOL)
@@ -320,12 +326,12 @@ def gen_fs_case(rng, tier, big):
         for n in names:
             budget -= 1
             p = d + [n]
-            if len(p) < depth_max and rng.chance(2, 5):
+            if len(p) < depth_max and rng.chance(1, 2):
                 emit("ps mkdir " + rel(p))
                 dirs.append(p)
                 frontier.append(p)
             elif rng.chance(1, 8):
-                emit("ps mkdir " + rel(p))          # empty directory
+                emit("ps mkdir " + rel(p))          # a directory that stays empty
                 dirs.append(p)
             else:
                 k = rng.below(10)
@@ -849,7 +855,52 @@ class Workdir:
         shutil.rmtree(self.top, ignore_errors=True)
 
 
-def run_impl(binary, wd, cases, tag):
+def run_stream_t(binary, cases, reset_line, timeout):
+    """seqtie.run_stream for the harness with hang handling: when the harness does not finish within `timeout` it is
+    killed, the case in which the output stopped gets `!TIMEOUT` and the stream resumes after it (the harness
+    flushes after every line).  A sanitizer abort is attributed the same way (`!ABORT …`)."""
+    results = [None] * len(cases)
+    start = 0
+    env = dict(os.environ)
+    env.update(lib.ASAN_ENV)
+    while start < len(cases):
+        lines, bounds = [], []
+        for c in cases[start:]:
+            lines.append(reset_line)
+            bounds.append((len(lines), len(lines) + len(c)))
+            lines.extend(c)
+        p = subprocess.Popen([binary], stdin=subprocess.PIPE, stdout=subprocess.PIPE, stderr=subprocess.PIPE, text=True, env=env)
+        timed_out = False
+        try:
+            so, se = p.communicate("\n".join(lines) + "\n", timeout=timeout)
+        except subprocess.TimeoutExpired:
+            p.kill()
+            so, se = p.communicate()
+            timed_out = True
+        out = so.split("\n")
+        if out and out[-1] == "":
+            out.pop()
+        done = 0
+        complete = True
+        for k, (a, b) in enumerate(bounds):
+            if b <= len(out):
+                results[start + k] = out[a:b]
+                done += 1
+            else:
+                part = out[a:] if a <= len(out) else []
+                mark = "!TIMEOUT after %ds (the call never returned)" % timeout if timed_out else \
+                    "!ABORT rc=%s %s" % (p.returncode, seqtie.summarize_err(se[-3000:]))
+                results[start + k] = part + [mark]
+                done += 1
+                complete = False
+                break
+        if complete:
+            break
+        start += done
+    return results
+
+
+def run_impl(binary, wd, cases, tag, timeout=None):
     inst, dirs = [], []
     for c in cases:
         i, d = wd.instantiate(c)
@@ -857,7 +908,7 @@ def run_impl(binary, wd, cases, tag):
         dirs.append(d)
     cwd = os.getcwd()
     try:
-        outs = seqtie.run_stream(binary, inst, tag + " reset", timeout=HARNESS_TIMEOUT)
+        outs = run_stream_t(binary, inst, tag + " reset", timeout or STREAM_TIMEOUT[0])
     finally:
         os.chdir(cwd)
     return outs, dirs
@@ -865,6 +916,24 @@ def run_impl(binary, wd, cases, tag):
 
 def run_model(cases, tag):
     return seqtie.run_stream(None, cases, tag + " reset", is_driver=True, timeout=HARNESS_TIMEOUT)
+
+
+def run_batched(binary, wd, cases, exp, tag, first, size):
+    """impl outputs batch by batch; stops after the first batch with a mismatch (a defect can make every case slow:
+    a listChildren that reports "." sends Path::size down ./././… until the path is too long).
+    returns (impl outputs, directories, number of cases actually run)"""
+    impl, dirs = [], []
+    start, n = 0, first
+    while start < len(cases):
+        o, d = run_impl(binary, wd, cases[start:start + n], tag)
+        impl += o
+        dirs += d
+        bad = any(seqtie.first_diff(e, x) is not None for e, x in zip(exp[start:start + n], o))
+        start += n
+        n = size
+        if bad:
+            break
+    return impl, dirs, len(impl)
 
 
 def chunked(lines, n):
@@ -877,16 +946,19 @@ def build(prop):
     return lib.build_harness("pf_path", [PATH_HARNESS], repo_sources=PATH_SRCS)
 
 
-def shrink_case(binary, wd, case, tag, expected, valid):
-    """delta-debug the ops after the `root` line; returns (small case, expected, got)"""
+SHRINK_BUDGET_S = 40
+
+
+def shrink_case(binary, wd, case, tag, expected, valid, deadline):
+    """delta-debug the ops after the `root` line (until `deadline`); returns (small case, expected, got)"""
     def fails(cand):
         c = [case[0]] + cand
-        if not valid(c):
+        if time.time() > deadline or not valid(c):
             return False
-        got = run_impl(binary, wd, [c], tag)[0][0]
+        got = run_impl(binary, wd, [c], tag, SHRINK_TIMEOUT)[0][0]
         return seqtie.first_diff(expected(c), got) is not None
     small = [case[0]] + seqtie.ddmin(case[1:], fails)
-    got = run_impl(binary, wd, [small], tag)[0][0]
+    got = run_impl(binary, wd, [small], tag, SHRINK_TIMEOUT)[0][0]
     return small, expected(small), got
 
 
@@ -896,6 +968,7 @@ def run_tie(prop, spec, tier, seed):
     if binary is None:
         res.failures.append(Failure("infra", "harness does not compile against the working tree", replay={"compiler": out[-3000:]}))
         return res
+    STREAM_TIMEOUT[0] = 75 if tier == "quick" else 480
     wd = Workdir()
     try:
         if prop == "C17":
@@ -910,12 +983,13 @@ def run_tie(prop, spec, tier, seed):
 def compare(res, prop, what, cases, exp, impl, model, binary, wd, tag, expected, valid, component):
     """three-way comparison of stateful cases; returns (impl mismatches, model mismatches)"""
     nimpl = nmodel = 0
+    deadline = time.time() + SHRINK_BUDGET_S
     for c, e, o, m in zip(cases, exp, impl, model):
         d = seqtie.first_diff(e, o)
         if d is not None:
             nimpl += 1
             if nimpl <= 3:
-                small, ee, oo = shrink_case(binary, wd, c, tag, expected, valid)
+                small, ee, oo = shrink_case(binary, wd, c, tag, expected, valid, deadline)
                 dd = seqtie.first_diff(ee, oo) or d
                 res.failures.append(Failure(
                     "violation", "%s differs from the %s at op %d (%s): expected %r, got %r" %
@@ -938,7 +1012,8 @@ def tie_file(res, binary, wd, tier, rng):
     cases = corpus + gen_file_cases(rng, tier)
     cases = [c for c in cases if file_valid(c)]
     exp = [file_expected(c) for c in cases]
-    impl, _ = run_impl(binary, wd, cases, "file")
+    impl, _, nrun = run_batched(binary, wd, cases, exp, "file", 200, 1000)
+    cases, exp = cases[:nrun], exp[:nrun]
     feasible = [model_feasible(c) for c in cases]
     mcases = [c for c, f in zip(cases, feasible) if f]
     mouts = iter(run_model(mcases, "file"))
@@ -988,9 +1063,9 @@ def tie_path(res, binary, wd, tier, rng):
     smodel = [x for b in run_model(blocks, "ps") for x in b]
     nsi = nsm = 0
     seen_sig = set()
-    sblocks = seqtie.run_stream(binary, blocks, "ps reset", timeout=HARNESS_TIMEOUT)
+    sblocks = run_stream_t(binary, blocks, "ps reset", STREAM_TIMEOUT[0])
     simpl = [x for b in sblocks for x in b]
-    crashed = [(b, o) for b, o in zip(blocks, sblocks) if o and (o[-1].startswith("!ABORT") or o[-1] == "!SHORT-OUTPUT")]
+    crashed = [(b, o) for b, o in zip(blocks, sblocks) if o and (o[-1].startswith("!ABORT") or o[-1].startswith("!TIMEOUT"))]
     if crashed:
         b, o = crashed[0]
         k = min(len(o) - 1, len(b) - 1)      # the line whose output is missing
@@ -999,7 +1074,10 @@ def tie_path(res, binary, wd, tier, rng):
     elif len(simpl) != len(lines) or len(smodel) != len(lines):
         res.failures.append(Failure("infra", "string stream returned %d/%d lines for %d inputs" % (len(simpl), len(smodel), len(lines))))
     else:
-        for l, e, o, m in zip(lines, sexp, simpl, smodel):
+        rows = list(zip(lines, sexp, simpl, smodel))
+        # report the property's own identities (name/parent of join, join with an absolute path) before raw differences
+        rows.sort(key=lambda r: 0 if r[0].split()[1] in ("nj", "pj") else 1)
+        for l, e, o, m in rows:
             if o != e:
                 nsi += 1
                 op = l.split()[1]
@@ -1017,12 +1095,13 @@ def tie_path(res, binary, wd, tier, rng):
                                                 replay={"correspondence": "PathStr model vs oracle", "ops": [l], "expected": [e], "model": [m]}))
     # ---- trees and visitors
     frng = rng.fork("fs")
-    ncases = 150 if tier == "quick" else 1500
+    ncases = 400 if tier == "quick" else 2000
     cases = [c for c in corpus if fs_valid(c)]
     for i in range(ncases):
         cases.append(gen_fs_case(frng, tier, big=(tier != "quick" and i % 25 == 0)))
     exp = [fs_expected(c) for c in cases]
-    impl, dirs = run_impl(binary, wd, cases, "ps")
+    impl, dirs, nrun = run_batched(binary, wd, cases, exp, "ps", 10, 40)
+    cases, exp = cases[:nrun], exp[:nrun]
     model = run_model(cases, "ps")
     # what the operating system itself says about the trees the harness built (os.scandir / getsize)
     os_bad = 0
@@ -1089,7 +1168,7 @@ def replay(prop, spec, path):
         ops = [tag + " root @"] + ops
     wd = Workdir()
     try:
-        o = run_impl(binary, wd, [ops], tag)[0][0]
+        o = run_impl(binary, wd, [ops], tag, 60)[0][0]
     finally:
         wd.cleanup()
     m = run_model([ops], tag)[0]
